@@ -87,6 +87,14 @@ func oracleC02(x *Exec, so *StepObs) {
 				}
 				live := so.After.Cluster[id.String()]
 				if live == nil {
+					// gone: fine unless the live object carried the keep policy when the operation started
+					if was := so.Before.Cluster[id.String()]; was != nil {
+						if v, ok := objAnnotation(was, "helm.sh/resource-policy"); ok && v == "keep" {
+							class = "live-keep-ignored"
+							fail("b-keep-respected", fmt.Sprintf("%s carried helm.sh/resource-policy=keep on the live object, was dropped from the manifest (revision %d -> %d) and has been deleted", id, d, created))
+							return
+						}
+					}
 					x.Sim.Probe("obsolete-resource-deleted")
 					continue
 				}
